@@ -161,6 +161,22 @@ def extra_obligations(mods, tier, seed):
                        f"helper functions + loop(): {n_dr2} digitalRead in total (exactly the poll)"))
     except Exception as ex:
         checks.append(("is_pressed-is-cached-sample-in-helpers-branches-loops", False, f"{type(ex).__name__}: {ex}"))
+    # the host half of "click counts agree": the step contract of the real host Button (owned by C20) is re-proved here from the current source
+    import contracts.c20 as c20
+    from pyvc import prove, loader
+    reg20 = c20.build()
+    mods20 = loader.load(sorted({f for (f, _) in reg20.contracts if f != "<extern>"}))
+    for q in ("Button.is_pressed", "Button.set_pressed", "Button.__init__"):
+        c = reg20.lookup(c20.BUTTON, q)
+        cd = reg20.classes.get("Button")
+        for variant in prove.variant_space(c, cd, True, c.is_init):
+            r = prove.prove_variant(reg20, mods20, c20.BUTTON, q, variant, 15000, prefix="C15/dep-C20/", extra_setup=getattr(c20, "engine_setup", None))
+            if r.status != "ok":
+                out.append({"name": f"C15/dep-C20/{q}[{r.variant}]/unit", "status": "unknown", "backend": "pyvc", "where": f"tool limit: {r.detail}", "time": r.time})
+            for o in r.obligations:
+                if not o["name"].endswith("/mustfail"):
+                    out.append({"name": o["name"], "status": o["status"], "backend": o.get("backend") or "z3", "where": o.get("where"), "time": o.get("time", 0.0),
+                                "model": o.get("model"), "reason": o.get("reason")})
     for name, ok, where in checks:
         out.append({"name": f"C15/arms/{name}", "status": "discharged" if ok else "sat", "backend": "enum", "where": where,
                     "time": round(time.time() - t0, 3), "replay": {"source": src, "loop": loop[:600]}, "replay_confirmed": not ok})
